@@ -194,6 +194,20 @@ Proof.
   - exfalso. apply nth_error_None in E. lia.
 Qed.
 
+(* Init and Update panic only when the app does; with the documented domain of AddAction (slot index
+   below the participant count) the action operations of a reachable machine panic only inside the app *)
+Lemma ainit_no_panic s r : r <> APanic -> snd (astep s (AInit r)) <> PANIC.
+Proof.
+  intro Hr. unfold astep. destruct (negb (expect (am s) InitActing InitSigning)); [intro H; discriminate H|].
+  destruct r as [[a d]| |]; try (intro H; discriminate H); [|exfalso; apply Hr; reflexivity].
+  destruct (new_state (am s) a d); intro H; discriminate H.
+Qed.
+Lemma aupdate_no_panic s r : r <> APanic -> snd (astep s (AUpdate r)) <> PANIC.
+Proof.
+  intro Hr. unfold astep. destruct (negb (expect (am s) Acting Signing)); [intro H; discriminate H|].
+  destruct r; try (intro H; discriminate H). exfalso. apply Hr. reflexivity.
+Qed.
+
 (* the observation recorded in DESIGN: Update stages whatever the app returns (no ValidTransition);
    witness: a "successor" with another channel id and a version jump *)
 Definition exAP : mparams := mkMP (repeat Byte.x07 32) [1; 2] None None.
